@@ -1377,7 +1377,7 @@ class BaseCfgLine(object):
 
         retval = default
         # Shortcut with a substring match, if possible...
-        if isinstance(regex, str) and (regex in self.text):
+        if isinstance(regex, str) and (re.escape(regex) == regex) and (regex in self.text):
             if debug > 0:
                 logger.debug("'{}' is a substring of '{}'".format(regex, self.text))
             retval = self.text
